@@ -7,15 +7,21 @@ MANIFEST = dict(
     cat="proof",
     tech="Coq proof that an algorithm model of Simplex_tree on tries refines the abstract filtered complex of the operation history "
          "+ differential correspondence of the C++ (8 option sets) with the extracted model on the whole observable state after every operation",
-    text="Coq theorems (unbounded: all tries, simplices, values, histories) about a function-by-function transcription of Simplex_tree.h on "
-         "prefix trees: well-formedness kept by every mutating routine, find after insertion / removal / pruning = the documented rule on the finite map, "
-         "find = lookup of the abstraction, enumeration = the keys each once, exact dimension, history refinement for the proved operation set. "
-         "The transcription is tied to the C++ by running harness/c01_drv.cpp (8 SimplexTreeOptions) and the extracted model on identical random "
-         "and boundary-directed histories and comparing, after EVERY operation, membership and value of every subset of the label universe, all "
-         "ranges, boundaries with opposite vertices, stars and cofaces of every simplex and codimension, counts, dimensions and operator==; "
-         "the specification model (finite map) is evaluated as oracle on each dump.",
-    note="Trusted: Coq kernel, extraction+OCaml driver, the hand transcription (validated by the differential run), g++/Boost. Not proved in Coq "
-         "(kept as *_full definitions, compared per input instead): see design/C01.md. expansion() is modelled at specification level only.",
+    text="39 Coq theorems (unbounded: all tries, simplices, values, histories; no axioms) about a function-by-function transcription of "
+         "Simplex_tree.h on prefix trees: for every history of insert_simplex, insert_simplex_and_subfaces (the double recursion with early exit), "
+         "insert_batch_vertices, insert_graph, remove_maximal_simplex, prune_above_filtration, prune_above_dimension, clear, dimension(), "
+         "num_simplices_by_dimension() that meets the documented preconditions, the tree is well formed and holds exactly the finite map the "
+         "documented rules define; find = lookup; vertex/complex/skeleton ranges = the stored simplices each once; boundary = the facets with "
+         "opposite vertices; the rec_coface walk and the label-list search both = the set of cofaces of the requested codimension; per-dimension "
+         "counts exact; dimension() and the cached dimension exact; operator== against a rebuilt tree true; closure preserved by the operations "
+         "that promise it. The faithful model of the unrepaired code is refuted on the three findings. The transcription is tied to the C++ by "
+         "running harness/c01_drv.cpp (8 SimplexTreeOptions) and the extracted model on identical random, boundary-directed and exhaustive "
+         "small histories and comparing, after EVERY operation, membership/value/dimension of every subset of the label universe, all ranges "
+         "(with order), boundaries, stars and cofaces of every simplex x codimension, counts, dimensions, operator==; the specification "
+         "model is evaluated as oracle on each dump.",
+    note="Trusted: Coq kernel, extraction+OCaml driver, the hand transcription (validated by the differential run, not by translation), g++/Boost, "
+         "the generator. Not proved: histories containing expansion (not an operation of the property; modelled at specification level, compared "
+         "per input); iteration orders are compared, not proved. NaN values, memory safety and the filtration cache are out of scope.",
     ref="design/C01.md")
 CORRESPONDENCE = "coq/C01_Model.v + coq/Trie.v + coq/Simplex.v (extracted: ocaml/c01_oracle.ml) vs harness/c01_drv.cpp (8 option sets) on identical operation histories"
 TRUSTED = [
@@ -287,6 +293,33 @@ def generate(rng, nhist):
     return out
 
 
+def exhaustive(maxlen):
+    """every history of length <= maxlen over a fixed alphabet of operations on the labels 0,1,2"""
+    U = [0, 1, 2]
+    subsets = [list(c) for k in (1, 2, 3) for c in itertools.combinations(U, k)]
+    alpha = []
+    for sub in subsets:
+        for v in (1, 2):
+            alpha.append(("IF", v, sub))
+        alpha.append(("RM", sub))
+    alpha += [("IS", 2, [0, 1]), ("IS", 1, [2]), ("IB", 2, [0, 1, 2]), ("IB", 1, [1]), ("PF", 1), ("PF", 0), ("PD", 0), ("PD", 1), ("PD", -1),
+              ("CL",), ("EX", 2)]
+    out = []
+
+    def rec(prefix, pm, contig):
+        if prefix:
+            ops = [op_line(o) for o in prefix[:-1]] + [op_line(prefix[-1], "DN")]
+            out.append(dict(U=U, ops=ops, opts=list(BASE) + ([3, 7] if contig else []), stream="exhaustive", contig=contig, zero=False))
+        if len(prefix) == maxlen:
+            return
+        for o in alpha:
+            q = pm.copy()
+            q.apply(o)
+            rec(prefix + [o], q, contig and q.contiguous())
+    rec([], PM(), True)
+    return out
+
+
 def header(U):
     return "H %d %s 0" % (len(U), " ".join(map(str, U)))
 
@@ -443,14 +476,20 @@ def check(ctx, replay=None):
                     c = json.load(open(os.path.join(cdir, f)))
                     hists.append(dict(U=c["U"], ops=c["ops"], opts=c.get("opts") or BASE, stream="corpus", contig=False, zero=False))
         nh = 2000 if ctx.tier == "quick" else 20000
+        hists += exhaustive(2 if ctx.tier == "quick" else 3)
+        res.notes.append("exhaustive sub-domain this run: every history of length <= %d over a 32-operation alphabet on the labels 0,1,2 "
+                         "(insert with subfaces of each of the 7 simplices at 2 values, removal of each, 2 lone insertions, 2 batches, prunings, clear, "
+                         "expansion), dimension() and num_simplices_by_dimension() called after the last operation" % (2 if ctx.tier == "quick" else 3))
         seen = {}
         samples = []
         done = 0
-        while done < nh:
+        while done < nh or hists:
             # batches keep the memory of the Python side bounded (each dump line is several kB)
-            batch = hists + generate(ctx.rng, min(1000, nh - done))
-            hists = []
-            done += 1000
+            if hists:
+                batch, hists = hists[:2000], hists[2000:]
+            else:
+                batch = generate(ctx.rng, min(1000, nh - done))
+                done += 1000
             compare(ctx, batch, res, drvs, orc, seen_kinds=seen)
             for h in batch:
                 res.distinct.add((tuple(h["U"]), tuple(h["ops"])))
